@@ -239,7 +239,7 @@ func c15Concurrent(r *mon.Run, k int) error {
 			r.Count("porcupine_partitions_ok", 1)
 			r.Distinct(fmt.Sprintf("bank:x%d:a%d:%d", k, acc, len(part)))
 		case porcupine.Unknown:
-			r.Inconclusive(fmt.Sprintf("porcupine timed out on account %d (%d operations)", acc, len(part)))
+			r.Undecided(fmt.Sprintf("porcupine timed out on account %d (%d operations)", acc, len(part)))
 		default:
 			_ = info
 			var ops []bankOp
